@@ -235,6 +235,19 @@ def denotation_worker(args):
             res.violation('denotation|%s' % ('misses' if expv else 'extra'),
                           'pattern %s: match(%d, %02d) is %s but the pattern %s that time' % (pat, h, m, real, 'denotes' if expv else 'does not denote'),
                           inputs={'pattern': pat, 'hour': h, 'minute': m}, replayed=(real != expv))
+    if args['label'] == '0':
+        # digits outside ASCII (the pattern regex says \\d): whatever the compiler accepts must match some time of day
+        for pat in ('\u0661\u0662:\u0660\u0660', '1\u0662:00', '\uff18:\uff10\uff10', '8:\u0665*', '\u0968*:*5', '*:\u0be6\u0be6'):
+            res.nontrivial += 1
+            world.configure(())
+            p = Parser()
+            text = 'time at %s on all' % pat
+            if p.parse(text):
+                tp = TimePattern.from_string(pat)
+                n = sum(1 for h in range(24) for m in range(60) if tp is not None and tp.match(h, m))
+                if n == 0:
+                    res.violation('acceptance|accepted-but-matches-nothing', 'pattern %r (digits outside ASCII): the compiler accepts it, but it matches no time of day\n  script: %r'
+                                  % (pat, text), inputs={'pattern': pat, 'script': text}, replayed=True)
     res.sample({'patterns': args['patterns'][:5], 'count': len(args['patterns'])})
     res.functions = world.functions_seen()
     return res
